@@ -11,7 +11,7 @@ import json, os, random, time
 import vlib
 
 GROUPS = {"C02": "ChanTraceR02.cfg", "C01": "ChanTraceR01.cfg", "C05": "ChanTraceR05.cfg", "C09": "ChanTraceR09.cfg",
-          "C10": "ChanTraceR10.cfg", "C12": "ChanTraceR12.cfg"}
+          "C10": "ChanTraceR10.cfg", "C12": "ChanTraceR12.cfg", "C14": "ChanTraceR14.cfg"}
 AMT_CLASS = {100000: "dust", 400000: "dust-edge", 600000: "big"}
 
 
@@ -455,6 +455,68 @@ def selftest(pid, wd, tpath):
     if not kinds or rejected != len(kinds):
         raise vlib.ToolError("binding self-test: %d of %d kinds of corruption rejected (%s)" % (rejected, len(kinds), names))
     return {"mutations": len(kinds), "rejected": rejected, "kinds": names}
+
+
+def channet_part(pid, tier, seed, wd, profiles=(), families=(), thorough_profiles=(), thorough_families=(), tag="net"):
+    """A part for checks whose main engine is another one: seeded channet schedules on real ChannelManager networks,
+    validated against ChanTrace.tla; a rejection counts for `pid` only if relaxing pid's guard group explains it (the
+    other guard groups are the business of the channel checks, which run the same families).
+    -> (violations, coverage), the contract of run_check's extra_parts."""
+    import fwd_scripts
+    bins = vlib.build(["channet"])
+    thorough = tier == "thorough"
+    rng = random.Random(seed * 7919 + 17)
+    batches = []
+    for name, nodes, runs in (thorough_profiles if thorough else profiles):
+        batches.append(("%s-%s%d" % (tag, name, nodes), ["--random", runs, "--nodes", nodes, "--profile", name]))
+    for fam, count in (thorough_families if thorough else families):
+        fpath = os.path.join(wd, "scripts-%s-%s.ndjson" % (tag, fam))
+        with open(fpath, "w") as f:
+            for s_ in fwd_scripts.make(rng, fam, count):
+                f.write(json.dumps(s_) + "\n")
+        batches.append(("%s-%s" % (tag, fam), ["--scripts", fpath]))
+
+    def do_batch(item):
+        bi, (bname, args) = item
+        tpath = os.path.join(wd, "trace-%s.ndjson" % bname)
+        style = CONNECT_STYLES[(seed + bi) % len(CONNECT_STYLES)]
+        try:
+            vlib.run_bin(bins["channet"], args + ["--seed", seed * 100 + 50 + bi, "--out", tpath], discard_stdout=True, timeout=3000,
+                         env={"LDK_TEST_CONNECT_STYLE": style})
+            summ = json.load(open(tpath + ".summary"))
+            total, fails = vlib.validate_trace(pid, "ChanTrace", "ChanTrace.cfg", tpath, timeout=2400, tag=bname)
+            return (tpath, style, summ, total, fails, None)
+        except BaseException as e:
+            return (tpath, style, None, 0, [], e)
+    from concurrent.futures import ThreadPoolExecutor
+    with ThreadPoolExecutor(max_workers=max(1, int(os.environ.get("VERIF_PAR", "4")))) as pool:
+        done = list(pool.map(do_batch, list(enumerate(batches))))
+    nviol, runs, events, judged = 0, 0, 0, 0
+    for bi, (bname, args) in enumerate(batches):
+        tpath, style, summ, total, fails, err = done[bi]
+        if err is not None:
+            raise err
+        vlib.log("[channet] %s %s" % (bname, summ))
+        runs += summ["runs"]
+        events += total
+        with open(tpath) as f:
+            judged += sum(1 for ln in f if '"kind":"PaymentPathSuccessful"' in ln)
+        for k, fl in enumerate(fails):
+            ev = fl["rec"]
+            groups = panic_groups(ev.get("msg"), fl["run_events"]) if ev.get("ev") == "panic" else attribute(pid, wd, fl, "%s-%d" % (bname, k))
+            mine = pid in groups
+            vlib.log("[reject] batch %s run %s at event %d (%s): guard groups %s -> %s" %
+                     (bname, fl["run"], fl["pos_in_run"], ev.get("ev"), sorted(groups) or "unattributed",
+                      "VIOLATION of " + pid if mine else "not this property"))
+            if mine and vlib.report_violation(pid, "%s-run%s" % (bname, fl["run"]), {
+                    "property": pid, "kind": fl["kind"], "guard_groups": sorted(groups), "first_unmatched_event": ev,
+                    "position_in_run": fl["pos_in_run"], "batch": bname, "engine_args": args + ["--seed", seed * 100 + 50 + bi],
+                    "env": {"LDK_TEST_CONNECT_STYLE": style}, "trace_of_run": fl["run_events"],
+                    "how_to_replay": "harness/target/debug/channet <engine_args> --out t.ndjson ; tools/tv.sh ChanTrace t.ndjson"},
+                    key=finding_key(pid, fl)):
+                nviol += 1
+    return nviol, {"engine": "channet", "spec": "ChanTrace.tla (guard group %s)" % pid, "runs": runs, "events_validated": events,
+                   "path_success_events_judged": judged, "batches": [b[0] for b in batches]}
 
 
 def run_check(pid, tier, seed, mc_cfgs, profiles, thorough_profiles, assumptions, mc_types=("static",),
